@@ -54,7 +54,7 @@ STDOUT == -1
 STDERR == -2
 
 AllActs == {"Set", "With", "New", "NewDetached", "PkgSetLevel", "SetDefault", "LogF", "LogA", "LogM", "SetAttrsR",
-            "Flags", "PkgLevel"}
+            "Flags", "PkgLevel", "DbgMode"}
 
 \* the global flag set (flags.go); StdFlags = LstdFlags.  The harness starts every behaviour from
 \* LstdFlags | LnoInterrupt so that Panic/Fatal probes return.
@@ -91,7 +91,7 @@ RemoveAllOf(seq, x) == SelectSeq(seq, LAMBDA y : y # x)
 (* Setter kinds: the effect of Set<K>(a, b) on one logger's configuration.  The result is a SET
    of configurations: a singleton except for removal from a list holding the writer twice,
    where the documentation does not say whether one or all occurrences go.                    *)
-SetterKinds == {"JSONMode", "ColorMode", "UTCMode", "TimeFormat", "Level", "Attrs", "Attrs1", "SetKV", "Skip", "CtxKeys",
+SetterKinds == {"JSONMode", "ColorMode", "UTCMode", "TimeFormat", "Level", "Attrs", "Attrs1", "SetKV", "Attrs0", "Skip", "CtxKeys",
                 "Writer", "AddWriter", "RemoveWriter", "ErrorWriter", "AddErrorWriter",
                 "RemoveErrorWriter", "AddLevelWriter", "RemoveLevelWriter", "ResetLevelWriter",
                 "ResetLevelWriters", "ResetWriters"}
@@ -109,6 +109,8 @@ ApplyK(c, k, a, b) ==
       [] k = "Level" -> {[c EXCEPT !.level = a]}
       \* SetAttrs(attr) / SetAttrs1(Attrs{attr}) / Set(key, value): all append one attribute
       [] k \in {"Attrs", "Attrs1", "SetKV"} -> {[c EXCEPT !.attrs = Append(c.attrs, <<a, b>>)]}
+      \* an EMPTY list given to SetAttrs/SetAttrs1/Set/SetContextKeys (With...: still a new child)
+      [] k = "Attrs0" -> {c}
       [] k = "Skip" -> {[c EXCEPT !.skip = a]}
       [] k = "CtxKeys" -> {[c EXCEPT !.ctx = Append(c.ctx, a)]}
       [] k = "Writer" -> {[c EXCEPT !.wn = <<a>>]}
@@ -174,6 +176,7 @@ Guard(s, e) ==
       [] e.op = "PkgSetLevel" -> TRUE
       [] e.op = "SetDefault" -> e.l \in Live(s)
       [] e.op = "LogM" -> e.l \in Live(s)          \* a record with context CtxVals[e.a] and call attributes CallArgs[e.b]
+      [] e.op = "DbgMode" -> TRUE                  \* the process-wide debug mode set from outside the library (hedzr/is)
       [] e.op = "SetAttrsR" -> TRUE                \* the inherit-attributes flag (LattrsR) on (e.a = 1) / off
       \* global flags: e.k in SetFlags AddFlags RemoveFlags ResetFlags SaveFlagsAndMod(add e.a, remove e.b)
       \* RestoreFlags (call the e.a-th restore function obtained so far; any of them, any number of times)
@@ -216,6 +219,7 @@ Step(s, e) ==
       [] e.op = "SetDefault" -> {[s EXCEPT !.deflog = e.l]}
       [] e.op = "LogA" -> {s}
       [] e.op = "LogM" -> {s}
+      [] e.op = "DbgMode" -> {[s EXCEPT !.dbg = (e.a = 1)]}
       [] e.op = "SetAttrsR" -> {[s EXCEPT !.attrsR = (e.a = 1),
                                            !.flags = IF e.a = 1 THEN s.flags \cup {"attrsR"} ELSE s.flags \ {"attrsR"}]}
       [] e.op = "Flags" ->
@@ -360,7 +364,7 @@ Room(l, k, b) ==
     /\ k = "AddWriter" => Len(st.cfg[l].wn) < MaxList
     /\ k = "AddErrorWriter" => Len(st.cfg[l].we) < MaxList
     /\ k = "AddLevelWriter" => Len(st.cfg[l].wl[b]) < MaxList
-WithKinds == {"JSONMode", "ColorMode", "UTCMode", "TimeFormat", "Level", "Attrs", "Attrs1", "SetKV", "Skip", "CtxKeys", "Writer", "ErrorWriter"}
+WithKinds == {"JSONMode", "ColorMode", "UTCMode", "TimeFormat", "Level", "Attrs", "Attrs1", "SetKV", "Attrs0", "Skip", "CtxKeys", "Writer", "ErrorWriter"}
 
 Set(l, k, a, b) == "Set" \in Acts /\ <<a, b>> \in SetterArgs[k] /\ Room(l, k, b) /\ Do("Set", l, k, a, b)
 With(l, k, a, b) == "With" \in Acts /\ k \in WithKinds /\ st.n < MaxLoggers /\ <<a, b>> \in SetterArgs[k] /\ Do("With", l, k, a, b)
@@ -371,6 +375,7 @@ SetDefault(l) == "SetDefault" \in Acts /\ Do("SetDefault", l, "", 0, 0)
 LogF(l, r, fi) == "LogF" \in Acts /\ Do("LogF", l, "", r, fi)
 LogM(l, ci, ai) == "LogM" \in Acts /\ Do("LogM", l, "", ci, ai)
 SetAttrsR(b) == "SetAttrsR" \in Acts /\ b \in {0, 1} /\ Do("SetAttrsR", 0, "", b, 0)
+DbgMode(b) == "DbgMode" \in Acts /\ b \in {0, 1} /\ Do("DbgMode", 0, "", b, 0)
 FlagKinds == {"SetFlags", "AddFlags", "RemoveFlags", "ResetFlags", "SaveFlagsAndMod", "RestoreFlags"}
 Flags(k, a, b) ==
     /\ "Flags" \in Acts
@@ -386,7 +391,8 @@ PkgLevel(k, a) ==
     /\ Do("PkgLevel", 0, k, a, 0)
 \* message classes are varied with an empty argument list, argument lists with a plain message
 LogA(l, ep, r, mc, args) ==
-    /\ "LogA" \in Acts /\ l \in Live(st) /\ (mc = "plain" \/ args = <<>>)
+    /\ "LogA" \in Acts /\ l \in Live(st)
+    /\ (mc = "plain" \/ args = <<>> \/ (mc \in {"empty", "blank"} /\ Len(args) <= 1))   \* a blank message may carry attributes
     /\ (ep \in {"Println", "pkg.Println"} => r = Always)
     /\ (ep \in PkgEPs => r # Off)              \* there is no package-level function carrying Off
     /\ (mc = "none" => ep \in {"Println", "pkg.Println"})
@@ -402,6 +408,7 @@ Next ==
     \/ \E l \in 1..MaxLoggers, r \in LogSevs, fi \in DOMAIN FailSets : LogF(l, r, fi)
     \/ \E l \in 1..MaxLoggers, ci \in DOMAIN CtxVals, ai \in DOMAIN CallArgs : LogM(l, ci, ai)
     \/ \E b \in {0, 1} : SetAttrsR(b)
+    \/ \E b \in {0, 1} : DbgMode(b)
     \/ \E k \in FlagKinds, a \in 0..Len(FlagSets), b \in 0..Len(FlagSets) : Flags(k, a, b)
     \/ \E k \in PkgLevelKinds, a \in ArgA \cup 0..MaxSaved : PkgLevel(k, a)
     \/ \E l \in 1..MaxLoggers, ep \in EPs, r \in LogSevs, mc \in MsgClasses, args \in ArgLists : LogA(l, ep, r, mc, args)
@@ -441,7 +448,8 @@ TreeMonotone ==
        /\ \A l \in Live(st) : st'.parent[l] = st.parent[l] /\ st'.name[l] = st.name[l]]_st
 
 \* debug mode is sticky
-DbgSticky == [][st.dbg => st'.dbg]_st
+\* (only the external switch DbgMode can clear it; no call of the library ever does)
+DbgSticky == [][st.dbg => (st'.dbg \/ "DbgMode" \in Acts)]_st
 
 \* C01 at design level: the declarative rule and the transcribed mechanism agree on every state
 GateAgrees ==
